@@ -74,8 +74,7 @@ def _relational(arg):
         return dict(n=n, status='undecided', why='outside the subset: %s' % (u if isinstance(u, Unsupported) else 'conflicting normalisations'))
     except z3.Z3Exception as e:
         return dict(n=n, status='undecided', why='z3: %s' % str(e)[:60])
-    if status != 'ok':
-        return dict(n=n, status='undecided', why='path budget')
+    partial = status != 'ok'
     bad = None
     for ctx, r in paths:
         if isinstance(r, Raise):
@@ -90,6 +89,8 @@ def _relational(arg):
         x = witness_string(ctx, ctx.primary, m)
         bad = dict(input=x, wrapper_accepts=a, constituents=dict(zip(consts, bs)), approx=ctx.approx)
         break
+    if partial and not bad:
+        return dict(n=n, status='undecided', why='path budget / subset: %s' % status)
     return dict(n=n, status='refuted' if bad else 'proved', bad=bad, paths=len(paths), secs=round(time.time() - t0, 2))
 
 
